@@ -31,6 +31,30 @@ LINE_SEPS = set("\n\x0b\r\u2028\u2029")
 RX_WS = [c for c in RX_WS_ALL if c not in LINE_SEPS]
 RX_WS_ASCII = [c for c in RX_WS if ord(c) < 128]                 # the regex crate accepts `\c` for these
 RX_WS_COMMON = [" ", " ", "\t", "\x0c", "\x85", "\xa0", "\u3000", "\u2003"]
+# Pattern_White_Space characters that are neither blanks (space, tab) nor line separators: they do not separate a regex
+# from its name, so a regex may END in one of them (parser.rs trim_end_unescaped trims space and tab only)
+TRAIL_WS = ["\x0c", "\x85", "\u200e", "\u200f"]
+# escapes that only the repaired RE_LEX_ESC_LITERAL keeps: \B and the braced hexadecimal forms (written == meant)
+NEW_ESC_PLAIN = ["\\B", "\\x{41}", "\\x{7a}", "\\u{e9}", "\\U{1F600}", "\\x{2}", "\\u{3b1}"]
+NEW_ESC_CLASS = ["[\\x{41}-\\x{43}]", "[^\\u{e9}]", "[\\U{1F600}a]", "[a\\x{7a}\\x{2d}]", "[\\u{3b1}-\\u{3c9}]"]
+
+
+def has_new_escape(written):
+    """does `written` contain `\\B` or a braced `\\x{` `\\u{` `\\U{` (the class of the escape-table defect)"""
+    i = 0
+    while i + 1 < len(written):
+        if written[i] == "\\":
+            if written[i + 1] == "B" or (written[i + 1] in "xuU" and written[i + 2:i + 3] == "{"):
+                return True
+            i += 2
+        else:
+            i += 1
+    return False
+
+
+def ends_in_trail_ws(written):
+    """does the written regex end in FF / NEL / LRM / RLM (bare or escaped): the class of the trimming defect"""
+    return written != "" and written[-1] in TRAIL_WS
 
 
 def escaped_chars(written):
@@ -110,6 +134,9 @@ def gen_atoms(rng, flags, allow_space=True):
         elif r < 0.66:
             c = rng.choice(sorted(META))
             a = ("\\" + c, "\\" + c)
+        elif r < 0.70:
+            e = rng.choice(NEW_ESC_PLAIN if rng.random() < 0.6 else NEW_ESC_CLASS)
+            a = (e, e)
         elif r < 0.76:
             e = rng.choice(["\\d", "\\w", "\\s", "\\n", "\\t", "\\x41", "\\101", "\\u00e9", "\\pL", "\\a", "\\f", "\\r", "\\v", "\\D", "\\S", "\\W", "\\x7a"])
             a = (e, e)
@@ -123,12 +150,16 @@ def gen_atoms(rng, flags, allow_space=True):
         else:
             a = ("\\ ", lit(" "))              # an escaped space (also as the last atom: trailing escaped space)
         atoms.append(a)
-        if rng.random() < 0.2 and a[0] not in (" ",) and not a[0].endswith("\\b"):
+        if rng.random() < 0.2 and a[0] not in (" ",) and not a[0].endswith("\\b") and not a[0].endswith("\\B"):
             q = rng.choice(["+", "*", "?"])
             atoms.append((q, q))
+    # a regex ending in a form feed, NEL, LRM or RLM — bare (the regex engine decides what it means under the flags) or escaped
+    if rng.random() < 0.08:
+        c = rng.choice(TRAIL_WS)
+        atoms.append((c, c) if rng.random() < 0.6 else ("\\" + c, lit(c)))
     # a regex must not start with an unescaped '<' (start-state prefix), whitespace (verbatim) or '//'
     w = "".join(a[0] for a in atoms)
-    if w[0] in " <" or w.startswith("//") or w[0] in "+*?":
+    if w[0] in " <" or w[0] in TRAIL_WS or w.startswith("//") or w[0] in "+*?":
         atoms.insert(0, ("\\<", lit("<")))
     return atoms
 
@@ -201,8 +232,12 @@ def render_header(rng, flags, style):
     return pre + "%grmtools" + lb + body + rb + post
 
 
-def render(rng, states, rules, flags, header_style, comments=None, closing=None, weird_seps=True, multi_blank=False):
-    """returns (text, exp) with exp = expected observations of the abstract spec"""
+def render(rng, states, rules, flags, header_style, comments=None, closing=None, weird_seps=True, multi_blank=None):
+    """returns (text, exp) with exp = expected observations of the abstract spec.
+    multi_blank: may the names of a declaration be separated by several blanks (None = at random)"""
+    if multi_blank is None:
+        multi_blank = rng.random() < 0.5
+    used_multi = False
     awc = flags.get("awc", False)
     if comments is None:
         comments = awc and rng.random() < 0.7
@@ -227,8 +262,15 @@ def render(rng, states, rules, flags, header_style, comments=None, closing=None,
         kw = "%" + rng.choice(["x", "X", "xstate", "X9"] if excl else ["s", "S", "start", "Sx"])
         line = kw
         for k, (n, _) in enumerate(states[i:j]):
-            # RE_WS.split: names are separated by exactly one blank unless multi_blank is asked for
-            line += rng.choice([" ", "  ", "\t", " \t "] if (k == 0 or multi_blank) else [" ", "\t"]) + n
+            # names are separated by one or more blanks (any Pattern_White_Space that does not end the line)
+            if k == 0:
+                sep = rng.choice([" ", "  ", "\t", " \t "])
+            elif multi_blank:
+                sep = rng.choice([" ", "  ", "\t", " \t ", "\t\t", " \x0c", "\x85 ", "   "])
+            else:
+                sep = rng.choice([" ", "\t"])
+            used_multi = used_multi or (k > 0 and len(sep) > 1)
+            line += sep + n
         line += rng.choice(["", "", " ", "\t"])
         out.append(line + nl())
         comment()
@@ -268,6 +310,7 @@ def render(rng, states, rules, flags, header_style, comments=None, closing=None,
                    "written": r.written(), "meant": r.meant(), "has_prefix": bool(r.pre),
                    "iw_esc": has_escaped_ws(r.written())} for r in rules],
         "states": [("INITIAL", False)] + list(states),
+        "multi_blank": used_multi,
     }
     return text, exp
 
